@@ -285,6 +285,7 @@ def fnCode (t : Nat) (ps : List String) (b : List Instr) : List Instr :=
 `defn` — closes over the global scope, parameters as declared, code compiled from the body -/
 structure GoodFn (m : Nat → Nat) (s : St) (rs : Ref.St) (vid : Nat) : Prop where
   lt : vid < s.fns.length
+  nm : mainFn < vid
   clo : ∃ c, rs.clos[m vid]? = some c ∧ c.env = 0 ∧ c.rest = none ∧ c.ps.Nodup ∧ (∀ p ∈ c.ps, okParam p = true)
     ∧ c.body ≠ [] ∧ (fnOf s vid).params = c.ps ∧ (fnOf s vid).nargs = c.ps.length ∧ (fnOf s vid).varargs = false
     ∧ (fnOf s vid).user = false ∧ (fnOf s vid).closing = [some 0]
@@ -303,10 +304,10 @@ theorem ClosExt.trans {a b c : Ref.St} (h₁ : ClosExt a b) (h₂ : ClosExt b c)
 theorem GoodFn.mono {m m' : Nat → Nat} {s s' : St} {rs rs' : Ref.St} {vid : Nat} (h : GoodFn m s rs vid)
     (hlen : s.fns.length ≤ s'.fns.length) (hfns : ∀ id, id < s.fns.length → fnOf s' id = fnOf s id)
     (hclos : ClosExt rs rs') (hm : m' vid = m vid) : GoodFn m' s' rs' vid := by
-  obtain ⟨hlt, c, h1, h2, h3, h4, h5, h6, h7, h8, h9, h10, h11, ⟨p, hp1, hp2, hp3⟩,
+  obtain ⟨hlt, hnm, c, h1, h2, h3, h4, h5, h6, h7, h8, h9, h10, h11, ⟨p, hp1, hp2, hp3⟩,
     t, b, tl, isFn, cb, gs0, gs1, self, hc1, hc2, hc3, hc4, hc5, hc6, hc7⟩ := h
   have e := hfns vid hlt
-  refine ⟨Nat.lt_of_lt_of_le hlt hlen, c, by rw [hm]; exact hclos _ _ h1, h2, h3, h4, h5, h6, by rw [e]; exact h7,
+  refine ⟨Nat.lt_of_lt_of_le hlt hlen, hnm, c, by rw [hm]; exact hclos _ _ h1, h2, h3, h4, h5, h6, by rw [e]; exact h7,
     by rw [e]; exact h8, by rw [e]; exact h9, by rw [e]; exact h10, by rw [e]; exact h11,
     ⟨p, by rw [e]; exact hp1, hp2, by rw [hfns p (by omega)]; exact hp3⟩,
     t, b, tl, isFn, cb, gs0, gs1, self, by rw [e]; exact hc1, Nat.lt_of_lt_of_le hc2 hlen,
@@ -1042,5 +1043,77 @@ theorem exec_createClosure (f t : Nat) (s : St) :
   rw [exec]
   simp only [run_bind, run_incPc, run_get, run_set, run_pushData]
   rfl
+
+/-! ## Loading a text: templates appended, the code of `__main` extended -/
+
+/-- the function table grew; old functions are unchanged, except that `__main` may have new code -/
+structure FnsKeep (s s' : St) : Prop where
+  len : s.fns.length ≤ s'.fns.length
+  same : ∀ id, id < s.fns.length → id ≠ mainFn → fnOf s' id = fnOf s id
+  par : (fnOf s' mainFn).parent = (fnOf s mainFn).parent
+  clo : (fnOf s' mainFn).closing = (fnOf s mainFn).closing
+
+theorem FnsKeep.parent {s s' : St} (h : FnsKeep s s') (id : Nat) (hid : id < s.fns.length) :
+    (fnOf s' id).parent = (fnOf s id).parent := by
+  by_cases hm : id = mainFn
+  · subst hm; exact h.par
+  · rw [h.same id hid hm]
+
+theorem FnsKeep.closing {s s' : St} (h : FnsKeep s s') (id : Nat) (hid : id < s.fns.length) :
+    (fnOf s' id).closing = (fnOf s id).closing := by
+  by_cases hm : id = mainFn
+  · subst hm; exact h.clo
+  · rw [h.same id hid hm]
+
+theorem GoodFn.mono' {m : Nat → Nat} {s s' : St} {rs rs' : Ref.St} {vid : Nat} (h : GoodFn m s rs vid)
+    (hk : FnsKeep s s') (hclos : ClosExt rs rs') : GoodFn m s' rs' vid := by
+  obtain ⟨hlt, hnm, c, h1, h2, h3, h4, h5, h6, h7, h8, h9, h10, h11, ⟨p, hp1, hp2, hp3⟩,
+    t, b, tl, isFn, cb, gs0, gs1, self, hc1, hc2, hc3, hc4, hc5, hc6, hc7⟩ := h
+  have e := hk.same vid hlt (by omega)
+  refine ⟨Nat.lt_of_lt_of_le hlt hk.len, hnm, c, hclos _ _ h1, h2, h3, h4, h5, h6, by rw [e]; exact h7,
+    by rw [e]; exact h8, by rw [e]; exact h9, by rw [e]; exact h10, by rw [e]; exact h11,
+    ⟨p, by rw [e]; exact hp1, hp2, by rw [hk.parent p (by omega)]; exact hp3⟩,
+    t, b, tl, isFn, cb, gs0, gs1, self, by rw [e]; exact hc1, Nat.lt_of_lt_of_le hc2 hk.len,
+    by rw [hk.closing t hc2]; exact hc3, hc4, hc5, hc6, hc7⟩
+
+theorem FnChainF.transfer' {s s' : St} (hseg : topSeg s' = topSeg s) (hk : FnsKeep s s') :
+    ∀ {b f}, FnChainF s b f → FnChainF s' b f := by
+  intro b f h
+  induction h with
+  | root f hlt hp hs =>
+    exact FnChainF.root f (Nat.lt_of_lt_of_le hlt hk.len) (by rw [hk.parent f hlt]; exact hp)
+      (by rw [hseg, hk.closing f hlt]; exact hs)
+  | step b f p hlt hp hpf hs _ ih =>
+    exact FnChainF.step b f p (Nat.lt_of_lt_of_le hlt hk.len) (by rw [hk.parent f hlt]; exact hp) hpf
+      (by rw [hseg, hk.closing f hlt]; exact hs) ih
+  | clos f p hlt hp hpf hclo hpp =>
+    exact FnChainF.clos f p (Nat.lt_of_lt_of_le hlt hk.len) (by rw [hk.parent f hlt]; exact hp) hpf
+      (by rw [hk.closing f hlt]; exact hclo) (by rw [hk.parent p (by omega)]; exact hpp)
+
+/-- the relation after `LoadExpressions`: more functions, new code in `__main`, the trace cleared -/
+theorem RelF.load {m : Nat → Nat} {s s' : St} {rs : Ref.St} {env : Nat} (h : RelF m s rs env)
+    (hsc : s'.scopes = s.scopes) (hlin : s'.linear = s.linear) (hcur : s'.curfunc = s.curfunc)
+    (hheap : s'.heap = s.heap) (htr : s'.trace = []) (hk : FnsKeep s s') :
+    RelF m s' { rs with trace := [] } env := by
+  have hso : ∀ i, scopeOf s' i = scopeOf s i := fun i => by unfold scopeOf; rw [hsc]
+  have hfl' : isFnScope s' = isFnScope s := by funext i; unfold isFnScope; rw [hso]
+  have hgood : ∀ id, GoodFn m s rs id → GoodFn m s' { rs with trace := [] } id := fun id hg =>
+    hg.mono' hk (fun _ _ hc => hc)
+  obtain ⟨b, hc, hfc⟩ := h.ctx
+  obtain ⟨fr0, hf0, hp0, hfl0⟩ := h.root0
+  refine ⟨by rw [hsc]; exact h.len, fun i x => by rw [hso]; exact h.vars i x, ⟨fr0, hf0, hp0, by rw [hfl']; exact hfl0⟩,
+    ⟨b, by rw [hfl', hlin]; exact hc, ?_⟩, ?_, by rw [hheap]; exact h.heap, htr, h.globals,
+    fun i x v hv => ValIn.mono (h.vok i x v (by rw [← hso]; exact hv)) hgood, by rw [hheap]; exact HeapIn.mono h.hok hgood⟩
+  · rw [hcur]
+    exact hfc.transfer' (by unfold topSeg; rw [hfl', hlin]) hk
+  · intro i hi
+    rw [hfl'] at hi
+    obtain ⟨t, h1, h2⟩ := h.fscopes i hi
+    have ht : t < s.fns.length := by
+      rcases Nat.lt_or_ge t s.fns.length with ht | ht
+      · exact ht
+      · have : fnOf s t = {} := by simp [fnOf, List.getD_eq_getElem?_getD, List.getElem?_eq_none ht]
+        rw [this] at h2; cases h2
+    exact ⟨t, by rw [hso]; exact h1, by rw [hk.closing t ht]; exact h2⟩
 
 end ZygoVerif.Sim
